@@ -926,17 +926,27 @@ fn mutate_hval(rng: &mut Rng, v: &hydrate::Value, depth: usize, enc: TextEncodin
 
 /// canonical rendering without conflict flags, floats by bit pattern, map keys sorted
 fn render_h(v: &hydrate::Value) -> String {
+    render_hx(v, false)
+}
+
+/// the same with the sign of a float zero dropped: put(k, -0.0) on a register showing 0.0 is a no-op by design
+/// (OpsFound::resolve_action compares values with f64 ==), so update_object reaches its target up to that sign
+fn render_hz(v: &hydrate::Value) -> String {
+    render_hx(v, true)
+}
+
+fn render_hx(v: &hydrate::Value, zero_sign: bool) -> String {
     match v {
         hydrate::Value::Scalar(s) => match s {
-            ScalarValue::F64(f) => format!("f64:{}", f.to_bits()),
+            ScalarValue::F64(f) => format!("f64:{}", if zero_sign && *f == 0.0 { 0 } else { f.to_bits() }),
             other => format!("{:?}", other),
         },
         hydrate::Value::Map(m) => {
-            let mut items: Vec<(&String, String)> = m.iter().map(|(k, mv)| (k, render_h(&mv.value))).collect();
+            let mut items: Vec<(&String, String)> = m.iter().map(|(k, mv)| (k, render_hx(&mv.value, zero_sign))).collect();
             items.sort();
             format!("{{{}}}", items.iter().map(|(k, v)| format!("{:?}:{}", k, v)).collect::<Vec<_>>().join(","))
         }
-        hydrate::Value::List(l) => format!("[{}]", l.iter().map(|lv| render_h(&lv.value)).collect::<Vec<_>>().join(",")),
+        hydrate::Value::List(l) => format!("[{}]", l.iter().map(|lv| render_hx(&lv.value, zero_sign)).collect::<Vec<_>>().join(",")),
         hydrate::Value::Text(t) => {
             let s: String = t.into();
             format!("T{:?}", s)
@@ -1052,12 +1062,12 @@ fn upd_object_case(rng: &mut Rng, rep: &mut Report, pi: usize, enc: TextEncoding
         }
     }
     doc.commit();
-    let got = hydrate_of(doc.document());
-    let want = render_h(&b);
+    let got = render_hz(&doc.document().hydrate(None));
+    let want = render_hz(&b);
     if got != want {
         rep.fail(&["C27"], &format!("recon|update_object|not-reached|{}", shape), &format!("after update_object the document is {} , expected {}", got, want), replay.clone());
     }
-    match guard(|| reload_hydrate(doc.document(), enc)) {
+    match guard(|| load_plain(&doc.save(), enc).map(|l| render_hz(&l.hydrate(None)))) {
         Ok(Ok(s)) if s == got => {}
         Ok(Ok(s)) => rep.fail(&["C27", "C11"], "recon|update_object|reload-differs", &format!("reloaded: {}", s), replay.clone()),
         Ok(Err(e)) => rep.fail(&["C27", "C11"], "recon|update_object|reload-failed", &e, replay.clone()),
@@ -1080,8 +1090,8 @@ fn upd_object_case(rng: &mut Rng, rep: &mut Report, pi: usize, enc: TextEncoding
             let rp = json!({"stream": "update_object", "program": pi, "from": render_h(&l0), "to": render_h(&l1)});
             match guard(|| d2.update_object(&lid, &l1)) {
                 Ok(Ok(())) => {
-                    let got = render_h(&d2.document().hydrate(None));
-                    let want = format!("{{\"l\":{}}}", render_h(&l1));
+                    let got = render_hz(&d2.document().hydrate(None));
+                    let want = format!("{{\"l\":{}}}", render_hz(&l1));
                     if got != want {
                         rep.fail(&["C27"], &format!("recon|update_object|not-reached|{}", shape), &format!("after update_object(list) the document is {} , expected {}", got, want), rp);
                     }
@@ -1091,7 +1101,7 @@ fn upd_object_case(rng: &mut Rng, rep: &mut Report, pi: usize, enc: TextEncoding
             }
         }
     }
-    rep.case(if render_h(&a) != want { Some(fnv(format!("{}{}", render_h(&a), want).as_bytes())) } else { None });
+    rep.case(if render_hz(&a) != want { Some(fnv(format!("{}{}", render_h(&a), want).as_bytes())) } else { None });
 }
 
 fn bulk_case(rng: &mut Rng, rep: &mut Report, pi: usize, enc: TextEncoding, thorough: bool) {
@@ -1902,7 +1912,7 @@ fn cli_stream(rng: &mut Rng, rep: &mut Report, thorough: bool) {
         Some(b) => b,
         None => return,
     };
-    let n = if thorough { 500 } else { 80 };
+    let n = if thorough { 300 } else { 80 };
     for pi in 0..n {
         let j = gen_json_obj(rng, 4, rep);
         let text = serde_json::to_string(&j).unwrap();
@@ -1975,7 +1985,7 @@ pub fn run(rng: &mut Rng, tier: &str, out: &str) -> Report {
     // ---- C40
     {
         let mut r = rng.fork();
-        let n = if thorough { 400 } else { 64 };
+        let n = if thorough { 320 } else { 64 };
         let mut grp = Group::new(if thorough { 12 } else { 6 });
         for pi in 0..n {
             let enc = encs[pi % 4];
